@@ -342,3 +342,27 @@ func typeNames(ts []*types.Named) string {
 	}
 	return strings.Join(ss, ",")
 }
+
+// paramOfType returns the name of the first parameter of fn whose type satisfies pred ("" if none).
+func paramOfType(fn *ssa.Function, pred func(types.Type) bool) string {
+	for _, p := range fn.Params {
+		if pred(p.Type()) {
+			return p.Name()
+		}
+	}
+	return ""
+}
+
+func isTagPtr(t types.Type) bool {
+	p, ok := t.(*types.Pointer)
+	if !ok {
+		return false
+	}
+	n, ok := p.Elem().(*types.Named)
+	return ok && n.Obj().Name() == "Tag" && n.Obj().Pkg() != nil && n.Obj().Pkg().Path() == logPath
+}
+
+func isLevelType(t types.Type) bool {
+	n, ok := t.(*types.Named)
+	return ok && n.Obj().Name() == "Level" && n.Obj().Pkg() != nil && n.Obj().Pkg().Path() == logPath
+}
